@@ -140,7 +140,7 @@ func genDataMessage(t *rapid.T) *c09Case {
 	bs := rapid.SliceOfN(u64Gen, 0, 6).Draw(t, "blocksizes")
 	if rapid.IntRange(0, 40).Draw(t, "longBlocksizes") == 0 {
 		// long runs (a 1 GiB file at the default chunk size has ~4000 entries)
-		n := rapid.SampledFrom([]int{174, 255, 256, 1023, 1024, 1025, 2000, 4100}).Draw(t, "nblocksizes")
+		n := rapid.SampledFrom([]int{174, 255, 256, 1023, 1024, 1025, 2000, 4100, 8191, 8192, 8193, 10000, 16385, 20000}).Draw(t, "nblocksizes")
 		bs = make([]uint64, n)
 		for i := range bs {
 			bs[i] = uint64(262144 + i%3)
@@ -317,7 +317,11 @@ func c09CheckData(msg *pb.Data, wire []byte) error {
 		return fmt.Errorf("library encoding %x is not the canonical encoding %x of {%v}", enc, canon, want)
 	}
 	// the appending entry point, into caller buffers with little or no room to spare, must produce prefix + the same bytes
-	for _, slack := range []int{0, 1, 2, 5, 9, 15, 16, 17, 18, 19, 20, 21, 22, 23, 24, 31, 64, len(enc), len(enc) + 1} {
+	slacks := []int{0, 1, 2, 5, 9, 15, 16, 17, 18, 19, 20, 21, 22, 23, 24, 31, 64, len(enc), len(enc) + 1}
+	if len(enc) > 8192 {
+		slacks = []int{0, 17, len(enc)} // (long block-size lists: keep the case cheap)
+	}
+	for _, slack := range slacks {
 		buf := make([]byte, 3, 3+slack)
 		buf[0], buf[1], buf[2] = 0xAA, 0xBB, 0xCC
 		out := data.AppendEncodeUnixFSData(buf, d)
